@@ -270,7 +270,7 @@ func (ni *NodeInterface) GetSentMessageByName(name string) (*Message, error) {
 func (ni *NodeInterface) SentMessages() []*Message {
 	msgSlice := ni.sentMessages.getValues()
 	slices.SortFunc(msgSlice, func(a, b *Message) int {
-		return int(a.id) - int(b.id)
+		return orCompare(int(a.id)-int(b.id), func() int { return compareEntityIDs(a.entityID, b.entityID) })
 	})
 	return msgSlice
 }
@@ -330,7 +330,7 @@ func (ni *NodeInterface) RemoveAllReceivedMessages() {
 func (ni *NodeInterface) ReceivedMessages() []*Message {
 	msgSlice := ni.receivedMessages.getValues()
 	slices.SortFunc(msgSlice, func(a, b *Message) int {
-		return int(a.id) - int(b.id)
+		return orCompare(int(a.id)-int(b.id), func() int { return compareEntityIDs(a.entityID, b.entityID) })
 	})
 	return msgSlice
 }
